@@ -17,15 +17,15 @@ SPEC = {
         "structural equality ignores unexported AST fields (depth caches) and treats nil and empty slices/maps alike",
     ],
     "campaigns": [
-        {"name": "expr_rd", "run": "^TestExprRD$", "quick": B(60000, 2), "thorough": B(2500000, 1, 3000)},
-        {"name": "cond_ship", "run": "^TestCondShip$", "quick": B(50000, 2), "thorough": B(2000000, 3, 3000)},
-        {"name": "planned_cond", "run": "^TestPlannedCond$", "quick": B(40000, 2), "thorough": B(1500000, 2, 3000)},
-        {"name": "fields_ship", "run": "^TestFieldsShip$", "quick": B(60000, 2), "thorough": B(2500000, 2, 3000)},
-        {"name": "stmt_rt", "run": "^TestStmtRoundTrip$", "quick": B(30000, 2), "thorough": B(800000, 2, 3000)},
-        {"name": "opt_codec", "run": "^TestOptCodec$", "quick": B(20000, 2), "thorough": B(500000, 2, 3000)},
-        {"name": "remote_query", "run": "^TestRemoteQuery$", "quick": B(15000, 1), "thorough": B(400000, 1, 3000)},
-        {"name": "plan_codec", "run": "^TestPlanCodec$", "quick": B(30000, 1), "thorough": B(800000, 1, 3000)},
-        {"name": "chunk_codec", "run": "^TestChunkCodec$", "quick": B(10000, 2), "thorough": B(200000, 2, 3000)},
+        {"name": "expr_rd", "run": "^TestExprRD$", "quick": B(120000, 2), "thorough": B(2500000, 1, 3000)},
+        {"name": "cond_ship", "run": "^TestCondShip$", "quick": B(100000, 2), "thorough": B(2000000, 3, 3000)},
+        {"name": "planned_cond", "run": "^TestPlannedCond$", "quick": B(80000, 2), "thorough": B(1500000, 2, 3000)},
+        {"name": "fields_ship", "run": "^TestFieldsShip$", "quick": B(120000, 2), "thorough": B(2500000, 2, 3000)},
+        {"name": "stmt_rt", "run": "^TestStmtRoundTrip$", "quick": B(60000, 2), "thorough": B(800000, 2, 3000)},
+        {"name": "opt_codec", "run": "^TestOptCodec$", "quick": B(40000, 2), "thorough": B(500000, 2, 3000)},
+        {"name": "remote_query", "run": "^TestRemoteQuery$", "quick": B(30000, 1), "thorough": B(400000, 1, 3000)},
+        {"name": "plan_codec", "run": "^TestPlanCodec$", "quick": B(60000, 1), "thorough": B(800000, 1, 3000)},
+        {"name": "chunk_codec", "run": "^TestChunkCodec$", "quick": B(20000, 2), "thorough": B(200000, 2, 3000)},
     ],
     "fuzz": [{"target": "FuzzExprRD", "seconds": 240}],
 }
